@@ -84,6 +84,13 @@ CHECKS = {
         technique=MC_TECH + " (full cross product of format codes x values + all short format strings, differential against Python %-formatting)",
         design="DESIGN.md §4 C12",
     ),
+    "C13": dict(
+        category="exploration",
+        text="Every 1- and 2-layer inheritance chain of the object generator (all field kinds: plain, hidden, unhidden, +:, self/super/$ references, object locals; both composition syntaxes) passed to every object function of the property (objectFields*/objectHas*/objectValues*/objectKeysValues*/get/length/type/mapWithKey/objectRemoveKey/prune/equals/mergePatch) with visible, hidden and absent keys; mergePatch over all pairs of a 16-value set (plus one nesting level) and prune over trees with nested empties; type predicates/equals/primitiveEquals/assertEqual/xor/xnor over all pairs of a 17-value set; lazily failing and diverging fields through every function that must not force them. Compared against reference definitions on the reference object model.",
+        note="Trusted: the reference object model (harness/src/refi.rs) and the transcribed std definitions (harness/src/refstd.rs).",
+        technique=MC_TECH + " (all object chains x all object/type functions, differential against reference definitions)",
+        design="DESIGN.md §4 C13",
+    ),
 }
 
 
